@@ -71,7 +71,8 @@ def run(R, env):
         for val, name, pred in ((True, "native=0", lambda x: paid(x)), (False, "native>0", lambda x: mr(x, lst, paid, cur))):
             # M evaluated in the world where every `total_native.is_zero()` has this value (the
             # test may sit in the rate helper or in a wrapper around it)
-            Mw = resolve_terms(prog, M, env.depth, None, ((isz, val),))
+            # (is_zero() tests and `match x.u128() { 0 => .. }` alike: the total is 0, resp. a non-zero value)
+            Mw = resolve_terms(prog, M, env.depth, None, ((isz, val), (cur, ("int", 0 if val else 1))))
             R.worlds += 1
             R.ob("C04.R1", "mint:" + name, all(pred(a) for a in alts_of(Mw)), "in the world %s the mint computation returns %s" % (name, fmt(Mw)[:200]), fn=cb.key)
     # ---------------- R2
@@ -93,14 +94,11 @@ def run(R, env):
         calls = [s_ for s_ in subterms(U) if s_[0] == "call" and shared._body_of_call(prog, s_) is not None]
         if calls:
             cb = shared._body_of_call(prog, calls[0])
-            c = Ctx(cb, params={i + 1: a for i, a in enumerate(calls[0][2])})
             isz = lambda t: t[0] == "call" and t[1] == "cosmwasm_std::Uint128::is_zero" and pend_total(t[2][0])
             for val, name, pred in ((True, "batch=0", zero), (False, "batch>0", lambda x: mr(x, tnt, pend_total, lst))):
-                rem, n = bool_world_edges(c, isz, val)
-                w = c.with_removed(rem).settle()
-                rt = w.T.return_term()
+                Uw = resolve_terms(prog, U, env.depth, None, ((isz, val), (pend_total, ("int", 0 if val else 1))))
                 R.worlds += 1
-                R.ob("C04.R2", "unbond:" + name, n >= 1 and pred(rt), "in the world %s the unbond computation returns %s" % (name, fmt(rt)[:200]), fn=cb.key)
+                R.ob("C04.R2", "unbond:" + name, all(pred(a_) for a_ in alts_of(Uw)), "in the world %s the unbond computation returns %s" % (name, fmt(Uw)[:200]), fn=cb.key)
     # ---------------- R3
     isM = lambda t: shared.same_any(prog, t, M)
     G1 = Guard("mint>0", boolean=lambda t: (False if (t[0] == "call" and t[1] == "cosmwasm_std::Uint128::is_zero" and isM(t[2][0])) else None))
